@@ -11,7 +11,7 @@ pub const DEF: PropDef = PropDef {
     id: "C09",
     workload,
     ops,
-    mandatory: &["k_eq_0", "k_window_boundary", "k_not_window_multiple", "k_limb_boundary", "k_eq_bits", "exp_bit_above_k", "lincomb_terms_gt_window", "lincomb_single_term", "exp_wider_than_base", "exp_narrower_than_base", "const_bank", "base_0", "base_m_minus_1", "modulus_between_third_and_half_of_2^BITS"],
+    mandatory: &["k_eq_0", "k_window_boundary", "k_not_window_multiple", "k_limb_boundary", "k_eq_bits", "exp_bit_above_k", "lincomb_terms_gt_window", "lincomb_single_term", "exp_wider_than_base", "exp_narrower_than_base", "const_bank", "base_0", "base_m_minus_1", "modulus_between_third_and_half_of_2^BITS", "nilpotent_base"],
     rule: "cases are (modulus, base(s), exponent(s), bit bound k) for pow / pow_bounded_exp / Pow / PowBoundedExp / MultiExponentiate(BoundedExp) (arrays of 1..4 and slices of 1..6 terms) and (modulus, a_i, b_i) with 1..=40 terms for lincomb_vartime, in the runtime (1,2,4,8,16 limbs; exponent widths 1,2,4,8 mixed), boxed (1..=17 limbs) and compile-time (21-entry bank) implementations; k is exhaustive over 0..=BITS(exponent) for 1-2 limb exponents and window/limb boundary values (+-1) otherwise; exponents 0, 1, 2^j, all-ones, bits set just above k; bases 0, 1, m-1, random; lincomb moduli with 0..=63+ leading zero bits so the accumulation window overflows. non-trivial = named class (k = 0, k at / off a 4-bit window boundary, k at a limb boundary, k = BITS, exponent bit above k, more terms than one window, wider/narrower exponent, bank modulus); distinct by hash",
 };
 
@@ -53,6 +53,10 @@ fn class_base(rep: &mut Rep, b: &BigUint, m: &BigUint) {
     }
     if b.is_zero() {
         rep.class("base_0");
+    } else if !m.is_one() && (b * b % m).is_zero() || (b * b * b % m).is_zero() && !m.is_one() {
+        // non-zero base whose small powers vanish modulo a non-squarefree modulus: the ladder's
+        // accumulator reaches exactly m (or 0) and only the final `>=` correction maps it to 0
+        rep.class("nilpotent_base");
     }
     if !m.is_one() && b + 1u32 == *m {
         rep.class("base_m_minus_1");
@@ -462,6 +466,26 @@ pub fn workload(ctx: &mut Ctx) {
                 ctx.exec(Case::new("pow.dyn").w(l).w(rl).a(m).a(b).a(e).s(k as u64), c_pow_dyn);
             }
         }
+    }
+    // nilpotent bases: m = r^j (j >= 2, r odd), base = r*t, so base^e = 0 (mod m) for e >= j
+    for _ in 0..ctx.iters(40_000) {
+        let l = *ctx.rng.pick(&[1usize, 2, 4]);
+        let sh = 4 + ctx.rng.below(12);
+        let r = BigUint::from(3u64 + 2 * ctx.rng.below(1 << sh));
+        let mut m = &r * &r;
+        let mut j = 2u32;
+        while fits(&(&m * &r), l) && ctx.rng.chance(2, 3) {
+            m *= &r;
+            j += 1;
+        }
+        let t = gn::below(&mut ctx.rng, &m, l);
+        let base = (&r * (&t + 1u32)) % &m;
+        let e = BigUint::from(j as u64 + ctx.rng.below(3));
+        let rl = *ctx.rng.pick(&[1usize, 2]);
+        let k = (e.bits() as u32 + ctx.rng.below(3) as u32).min(64 * rl as u32);
+        let (mv, bv, ev) = (from_big(&m, l), from_big(&base, l), from_big(&e, rl));
+        ctx.exec(Case::new("pow.dyn").w(l).w(rl).a(mv.clone()).a(bv.clone()).a(ev.clone()).s(k as u64), c_pow_dyn);
+        ctx.exec(Case::new("pow.boxed").w(l).w(rl).a(mv).a(bv).a(ev).s(k as u64).s(0), c_pow_boxed);
     }
     // boxed pow 1..=17 limbs, exponent 1..=6 limbs
     for _ in 0..ctx.iters(120_000) {
